@@ -485,3 +485,89 @@ def curves_transform(ctx):
     after = [np.array(curve.get_point(t), dtype=float) for t in ts]
     ctx.prove("points-are-the-images", all(np.allclose(a, m.T(b), atol=1e-6 * (1 + np.abs(b).max())) for a, b in zip(after, before)))
     ctx.prove("length-scaled-by-the-ratio", abs(curve.length - len0 * m.length_ratio) <= 1e-3 * (1 + abs(len0)))
+
+
+# ------------------------------------------------------------------------------ whole operations from the library's constructors
+def _written_edges(op):
+    """What a mesh made of this one operation writes for its curved edges: (corner positions, kind, derived points)."""
+    from classy_blocks.mesh import Mesh
+
+    mesh = Mesh()
+    mesh.add(op)
+    mesh.assemble()
+    out = []
+    for e in mesh.edge_list.edges:
+        rec = {"kind": e.kind, "p1": np.asarray(e.vertex_1.position, dtype=float), "p2": np.asarray(e.vertex_2.position, dtype=float)}
+        if e.kind in ("arc", "origin", "angle"):
+            rec["pts"] = [np.asarray(e.third_point.position, dtype=float)]
+        elif e.kind in ("spline", "polyLine"):
+            rec["pts"] = [np.asarray(p, dtype=float) for p in e.point_array]
+        else:
+            rec["pts"] = []
+        out.append(rec)
+    return [np.asarray(p, dtype=float) for p in op.point_array], out
+
+
+def _constructed(kind, rng):
+    import classy_blocks as cb
+
+    u = rng.uniform
+    base = cb.Face([[0.5, 0.1, 0.0], [1.6, 0.0, 0.1], [1.7, 1.1, 0.0], [0.6, 1.0, -0.1]])
+    if kind == "revolve":
+        return cb.Revolve(base, u(0.4, 1.3), [0.1, 1.0, 0.2], [-0.5, 0.0, 0.3])
+    if kind == "wedge":
+        return cb.Wedge(cb.Face([[0, 0.5, 0], [1, 0.5, 0], [1, 1.2, 0], [0, 1.2, 0]]), u(0.05, 0.2))
+    if kind == "extrude-with-arcs":
+        f_ = cb.Face([[0, 0, 0], [1, 0, 0], [1, 1, 0], [0, 1, 0]], [cb.Arc([0.5, -0.2, 0]), cb.Origin([1.9, 0.5, 0]), cb.Angle(u(0.4, 1.2), [0, 0, 1]), cb.Spline([[0.1, 0.7, 0], [-0.1, 0.3, 0]])])
+        return cb.Extrude(f_, [0.1, 0.2, u(0.8, 1.5)])
+    f1 = cb.Face([[0, 0, 0], [1, 0, 0], [1, 1, 0], [0, 1, 0]], [cb.Arc([0.5, -0.2, 0]), None, cb.PolyLine([[0.8, 1.1, 0], [0.3, 1.2, 0]]), None])
+    f2 = cb.Face([[0, 0, 1], [1.2, 0, 1.1], [1.1, 1.3, 1.2], [0, 1, 1]])
+    loft = cb.Loft(f1, f2)
+    loft.add_side_edge(0, cb.Arc([-0.2, -0.1, 0.5]))
+    loft.add_side_edge(2, cb.Angle(u(0.3, 0.9), [1.0, -1.0, 0.2]))
+    return loft
+
+
+@proof("C09", "bounded/constructed-operations-transform", level="B", samples=10,
+       cases=[(c, k) for c in ("revolve", "wedge", "extrude-with-arcs", "loft-with-side-edges") for k in KINDS],
+       functions=["classy_blocks.construct.operations.revolve:Revolve.__init__", "classy_blocks.construct.operations.operation:Operation.parts",
+                  "classy_blocks.base.element:ElementBase.transform", "classy_blocks.construct.edges:Angle.rotate"],
+       note="bounded stand-in: operations made by the library's own constructors (edge data possibly shared between edges) are transformed "
+            "as a whole; the corner points and every derived arc / spline point of the one-block mesh are the images of those of the "
+            "untransformed operation.  Reflections of angle-based edges are left out (listed known finding: sense of rotation)")
+def constructed_operations(ctx):
+    ck, kind = ctx.case
+    rng = ctx.rng
+    state = rng.getstate()
+    op0 = _constructed(ck, rng)
+    rng.setstate(state)
+    op1 = _constructed(ck, rng)
+    m = Map(ctx, kind)
+    pts0, edges0 = _written_edges(op0)
+    m.apply(op1)
+    pts1, edges1 = _written_edges(op1)
+    scale = 1 + max(np.abs(p).max() for p in pts0)
+    img = lambda x: np.asarray(m.T(x), dtype=float)
+    if kind == "mirror":   # an operation stays right-handed under a reflection by swapping its two faces
+        pts0 = pts0[4:] + pts0[:4]
+    ctx.prove("corner-points-are-the-images", all(np.allclose(b, img(a), atol=1e-7 * scale) for a, b in zip(pts0, pts1)))
+    if kind == "mirror":
+        # mirror() also swaps the faces: compare edges as sets keyed by their end points
+        edges0 = [e for e in edges0 if e["kind"] != "angle"]
+    ok, missing = True, []
+    for e in edges0:
+        a, b = img(e["p1"]), img(e["p2"])
+        match = [f_ for f_ in edges1 if f_["kind"] == e["kind"] and ((np.allclose(f_["p1"], a, atol=1e-7 * scale) and np.allclose(f_["p2"], b, atol=1e-7 * scale))
+                                                                      or (np.allclose(f_["p1"], b, atol=1e-7 * scale) and np.allclose(f_["p2"], a, atol=1e-7 * scale)))]
+        if not match:
+            ok = False
+            missing.append((e["kind"], e["p1"].round(3).tolist()))
+            continue
+        f_ = match[0]
+        want = [img(p) for p in e["pts"]]
+        got = f_["pts"] if np.allclose(f_["p1"], a, atol=1e-7 * scale) else f_["pts"][::-1]
+        if len(got) != len(want) or not all(np.allclose(x, y, atol=1e-6 * scale) for x, y in zip(got, want)):
+            ok = False
+            missing.append((e["kind"], "points differ", [x.round(4).tolist() for x in got[:2]], [y.round(4).tolist() for y in want[:2]]))
+    ctx.prove("every-curved-edge-of-the-mesh-is-the-image-of-the-originals", ok, detail=missing[:3])
+    ctx.prove("same-number-of-curved-edges", len(edges1) >= len(edges0))
